@@ -69,4 +69,26 @@ CHECKS["C06"] = {
             "SnapshotActionContext._process_action is verified up to the call of collect() only (solver budget); "
             "__dict__ of an object is assumed to be an exact dict; protobuf conversion is C08.",
 }
+CHECKS["C02"] = {
+    "text": "Per-function fidelity contracts proved from source: process_variable records the value's real type name, "
+            "its text form cut to the limit and its identity under the node's name; variable_to_string gives the element "
+            "count for exact containers and str() otherwise; _process_frame copies file/function/line of the frame and "
+            "processes exactly that frame's locals with the action's limits; collect walks f_back one frame per step "
+            "with the frame's index; should_collect_vars is the frame_type table; the snapshot names its tracepoint; "
+            "watches are evaluated once each in the trigger's frame.",
+    "note": "whole-graph fidelity = per-node contract + FIFO search + per-step stack walk, composed by an argument "
+            "(DESIGN.md), not a mechanised lemma; _process_action is verified up to collect(); children-by-kind is "
+            "checked for sequences (exact prefix) and only structurally for dicts/objects; CPython delivers events on the "
+            "reaching thread (trusted).",
+}
+CHECKS["C07"] = {
+    "text": "process_variable is proved to reference (not re-record, not re-expand) an object whose identity is cached "
+            "and to give a new object the next id with exactly one table entry, all other entries untouched (whole-view "
+            "postcondition); search_function adds one reference per node and expands only new objects; "
+            "merge_var_lookup is a union; each snapshot starts from its own empty table and cache; watches use the "
+            "snapshot's identity cache.",
+    "note": "id() uniqueness among live objects is assumed; equal primitives share identity in the model (interning); "
+            "closure of the final table is not proved end-to-end (the BFS contract is about order, not about the table); "
+            "termination is not proved.",
+}
 NOT_APPLICABLE = {}
